@@ -605,6 +605,16 @@ pub fn check_iter(ev: &Event, kind: u8, calls: &[bool], forget: bool, post: Opti
             exhausted_seen = true;
         }
     }
+    // ---- an iterator that can be formatted must not show (= read) what it has already handed out
+    if let Some(text) = &o.iter_debug_text {
+        st.count("c12_iterators_formatted");
+        let mut shown: BTreeSet<u64> = BTreeSet::new();
+        let b = text.as_bytes();
+        let mut i = 0;
+        while i < b.len() { if (b[i] == b'u' || b[i] == b'V') && i + 1 < b.len() && b[i + 1].is_ascii_digit() { let mut j = i + 1; let mut n = 0u64; while j < b.len() && b[j].is_ascii_digit() { n = n.wrapping_mul(10).wrapping_add((b[j] - b'0') as u64); j += 1; } shown.insert(n); i = j; } else { i += 1; } }
+        let handed: Vec<u64> = o.yields.iter().flat_map(|y| [y.k, y.v]).flatten().filter(|u| shown.contains(u)).collect();
+        if !handed.is_empty() { v(out, "C12", "debug-shows-yielded", format!("{}: the iterator's Debug output lists objects {:?} that it had already handed out", op.to_text(), handed)); v(out, "C07", "debug-shows-yielded", format!("{}: formatting the iterator read entries that had been moved out ({:?})", op.to_text(), handed)); }
+    }
     // ---- the finishing call: Iterator's provided methods must agree with what next/next_back would still yield
     let fin = match op { Op::Iterate { fin, .. } | Op::Into { fin, .. } => *fin, _ => 0 };
     if fin == 8 { st.count("c12_consumer_panicked_holding_iterator"); }
